@@ -586,7 +586,7 @@ func C16(p *ir.Program, r *report.R) {
 				continue
 			}
 			n++
-			c.Guards("consensus.(*ConsensusState).defaultSetProposal", "enter recover", s.Instr, G{"waited-since-height-start", "!time.Time.After(time.Time.Add(cs.RoundState.StartTime,*),time.Now())"})
+			c.GuardsS("consensus.(*ConsensusState).defaultSetProposal", "enter recover", s, G{"waited-since-height-start", "!time.Time.After(time.Time.Add(cs.RoundState.StartTime,*),time.Now())"})
 		}
 		c.MustFind("K1", "consensus.(*ConsensusState).defaultSetProposal/enter recover", sp, n, "cs.stepRecover = true")
 	}
